@@ -592,8 +592,10 @@ func enumC17(env *engine.Env, yield func(any) bool) {
 	// an undefined key at every mapping level: the parser's verdict and the schema's must agree (both reject)
 	_, levels := configShape()
 	for _, lv := range levels {
-		if !yield(C17Case{Part: "level", Path: lv.Path}) {
-			return
+		for _, inj := range []string{"", "x-extra", "X-Meta", "_private"} {
+			if !yield(C17Case{Part: "level", Path: lv.Path, Value: inj}) {
+				return
+			}
 		}
 	}
 	for _, e := range c17Enums {
@@ -695,7 +697,11 @@ func c17Docs(env *engine.Env) []map[string]any {
 func c17Doc(env *engine.Env, c C17Case) map[string]any {
 	switch c.Part {
 	case "level":
-		return docWith(c17Base(), append(append([]string{}, c.Path...), "zz_undefined_key"), "x")
+		inj := "zz_undefined_key"
+		if c.Value != "" {
+			inj = c.Value
+		}
+		return docWith(c17Base(), append(append([]string{}, c.Path...), inj), "x")
 	case "path":
 		d := docWith(c17Base(), c.Path, leafSample(cfgLeaf{Path: c.Path, Kind: c.Kind}))
 		if len(c.Path) > 1 && c.Path[0] == "contents" && c.Path[len(c.Path)-1] != "dst" {
@@ -824,18 +830,30 @@ func checkC17(env *engine.Env, ci any) engine.Outcome {
 			viol("schema:rejects-accepted-path:"+pathKey(c.Path), "a minimal document with %s is accepted by the parser but rejected by the schema: %v\n%s", key, serrs, fixture.Doc(d).YAML())
 		}
 	case "level":
-		d := docWith(c17Base(), append(append([]string{}, c.Path...), "zz_undefined_key"), "x")
+		inj := "zz_undefined_key"
+		if c.Value != "" {
+			inj = c.Value
+		}
+		d := docWith(c17Base(), append(append([]string{}, c.Path...), inj), "x")
 		pOK, _, serrs, harness := judge(d)
 		if harness != "" {
 			out.HarnessError = harness
 			return out
+		}
+		// the verdict of every way of handing the document to the parser counts (file, stdin, reader)
+		for name, perr := range parseEntryPoints(env, fixture.Doc(d).YAML()) {
+			out.Transitions++
+			if perr == nil && pOK == false {
+				pOK = true
+				_ = name
+			}
 		}
 		lvl := pathKey(c.Path)
 		if lvl == "" {
 			lvl = "(top)"
 		}
 		out.Nontrivial = true
-		out.Key = fmt.Sprintf("level:%s:%v:%v", lvl, pOK, len(serrs) == 0)
+		out.Key = fmt.Sprintf("level:%s:%s:%v:%v", lvl, inj, pOK, len(serrs) == 0)
 		if pOK != (len(serrs) == 0) {
 			who := "the parser accepts it, the schema rejects it"
 			if !pOK {
